@@ -26,7 +26,7 @@ def plan(tier, seed):
     out = []
     for i in range(z['generic']):
         out.append({'fam': 'generic', 's': seed, 'p': NUM, 'i': i,
-                    'k': {'big': i % 9 == 0, 'index': ['concat', 'range_offset', 'range_desc', 'checked_concat'][(i // 4) % 4] if i % 4 == 1 else None, 'anom': i % 3 == 2}})
+                    'k': {'big': i % 9 == 0, 'index': ['concat', 'sorted_repeats', 'range_offset', 'range_desc', 'checked_concat'][(i // 4) % 5] if i % 4 == 1 else None, 'anom': i % 3 == 2}})
     for i in range(z['bimodal']):
         out.append({'fam': 'bimodal', 's': seed, 'p': NUM, 'i': 100000 + i,
                     'k': {'third': i % 2 == 0, 'nce': 1 + i % 2, 'lookback': 100, 'bins': 0,
